@@ -3396,11 +3396,13 @@ bool ts_query__step_is_fallible(
     i++;
   } while (next_step->is_pass_through);
 
-  // When this step has child steps, the step that follows its whole subtree can
-  // be an anchored sibling: that anchor can fail as well, whatever the analysis
-  // says about the children.
+  // When this step has child steps, every step of its subtree can fail, not only
+  // the first one: a later child step may not be guaranteed (`parent_pattern_guaranteed`
+  // is not propagated backwards), may be anchored or may test for a MISSING node.
+  // And the step that follows the whole subtree can be an anchored sibling: that
+  // anchor can fail as well, whatever the analysis says about the children.
   if (next_step->depth != PATTERN_DONE_MARKER && next_step->depth > step->depth) {
-    for (unsigned j = step_index + i; j < self->steps.size; j++) {
+    for (unsigned j = step_index + i - 1; j < self->steps.size; j++) {
       QueryStep *later_step = array_get(&self->steps, j);
       if (later_step->depth == PATTERN_DONE_MARKER || later_step->depth < step->depth) break;
       if (later_step->is_pass_through) continue;
@@ -3408,6 +3410,11 @@ bool ts_query__step_is_fallible(
         if (later_step->is_immediate) return true;
         break;
       }
+      if (
+        !later_step->parent_pattern_guaranteed ||
+        later_step->is_immediate ||
+        later_step->is_missing
+      ) return true;
     }
   }
 
